@@ -218,6 +218,11 @@ func flexLayout(context *layoutContext, box_ Box, bottomSpace pr.Float, skipStac
 	} else {
 		skipStack = nil
 	}
+	// index in [children] of the item the layout is resumed at: the skip stack is for it
+	resumedIndex := 0
+	if strings.HasSuffix(string(box.Style.GetFlexDirection()), "-reverse") {
+		resumedIndex = len(children) - 1
+	}
 
 	childSkipStack := skipStack
 	for _, child_ := range children {
@@ -614,12 +619,17 @@ func flexLayout(context *layoutContext, box_ Box, bottomSpace pr.Float, skipStac
 	// TODO: Fix TODO in build.FlexChildren
 	// TODO: Handle breaks
 	var newFlexLines []flexLine
-	childSkipStack = skipStack
 	for _, line := range flexLines {
 		var newFlexLine flexLine
 		for _, v := range line.line {
 			child_ := v.box
 			child := child_.Box()
+			// Skip stack is only for the resumed child (not the first one of
+			// the first line: the lines may be reversed)
+			childSkipStack = nil
+			if v.index == resumedIndex {
+				childSkipStack = skipStack
+			}
 			// TODO: Find another way than calling blockLevelLayoutSwitch to
 			// get baseline and child.Height
 			if child.MarginTop == pr.AutoF {
@@ -640,7 +650,6 @@ func flexLayout(context *layoutContext, box_ Box, bottomSpace pr.Float, skipStac
 			if newChild == nil {
 				// nothing of the item can be rendered (e.g. a multi-column
 				// box skipping its content) : ignore it
-				childSkipStack = nil
 				continue
 			}
 			child.Baseline = pr.Float(0)
@@ -658,9 +667,6 @@ func flexLayout(context *layoutContext, box_ Box, bottomSpace pr.Float, skipStac
 			}
 
 			newFlexLine.line = append(newFlexLine.line, indexedBox{index: v.index, box: child_})
-
-			// Skip stack is only for the first child
-			childSkipStack = nil
 		}
 		if len(newFlexLine.line) != 0 {
 			newFlexLines = append(newFlexLines, newFlexLine)
@@ -1144,10 +1150,14 @@ func flexLayout(context *layoutContext, box_ Box, bottomSpace pr.Float, skipStac
 	box_ = box_.Copy()
 	box = box_.Box()
 	box.Children = nil
-	childSkipStack = skipStack
 	for _, line := range flexLines {
 		for _, v := range line.line {
 			i, child := v.index, v.box.Box()
+			// Skip stack is only for the resumed child
+			childSkipStack = nil
+			if i == resumedIndex {
+				childSkipStack = skipStack
+			}
 			if child.IsFlexItem {
 				newChild, tmp, _ := blockLevelLayoutSwitch(context, v.box.(bo.BlockLevelBoxITF), bottomSpace, childSkipStack, box,
 					pageIsEmpty, absoluteBoxes, fixedBoxes, new([]pr.Float), false, -1)
@@ -1176,9 +1186,6 @@ func flexLayout(context *layoutContext, box_ Box, bottomSpace pr.Float, skipStac
 					break
 				}
 			}
-
-			// Skip stack is only for the first child
-			childSkipStack = nil
 		}
 		if resumeAt != nil {
 			break
